@@ -39,8 +39,38 @@ fn main() {
 
 fn real_main(args: Vec<String>) -> i32 {
     match args[1].as_str() {
+        "cases" => {
+            let f = |prop: &str, batch: &str, tier: &str, i: u64| -> util::CaseOut {
+                match prop {
+                    "C04" => c04::case(batch, tier, i),
+                    "C15" => c15::case(batch, tier, i),
+                    "C16" => c16::case(batch, tier, i),
+                    "C17" => c17::case(batch, tier, i),
+                    _ => {
+                        eprintln!("no cases for {prop}");
+                        std::process::exit(2)
+                    }
+                }
+            };
+            util::cases_child_main(&args, &f)
+        }
+        "eval" => {
+            let prop = args.get(2).cloned().unwrap_or_default();
+            let f = move |v: &serde_json::Value| -> Option<(String, String)> {
+                match prop.as_str() {
+                    "C04" => c04::eval(v),
+                    "C15" => c15::eval(v),
+                    "C16" => c16::eval(v),
+                    "C17" => c17::eval(v),
+                    _ => {
+                        eprintln!("no eval for {prop}");
+                        std::process::exit(2)
+                    }
+                }
+            };
+            util::eval_child_main(&f)
+        }
         "c08-child" => c08::child_main(),
-        "c04-dev" => c04::dev_child_main(args.get(2).map(|s| s.as_str()).unwrap_or("quick")),
         "c15-alone" => c15::alone_child_main(),
         "run" => {
             if args.len() < 4 {
@@ -71,18 +101,6 @@ fn real_main(args: Vec<String>) -> i32 {
                     return 2;
                 }
             };
-            // a violation found by the dev-profile child is replayed by the dev-profile binary
-            if v["replay"]["profile"].as_str() == Some("dev") && !cfg!(debug_assertions) && v["property"].as_str() == Some("C04") {
-                if let Ok(bin) = std::env::var("SIM_DEV") {
-                    return match std::process::Command::new(bin).arg("replay").arg(&args[2]).status() {
-                        Ok(st) => st.code().unwrap_or(2),
-                        Err(e) => {
-                            eprintln!("HARNESS ERROR: {e}");
-                            2
-                        }
-                    };
-                }
-            }
             let prop = v["property"].as_str().unwrap_or("").to_string();
             let want = v["key"].as_str().unwrap_or("").to_string();
             let got = match prop.as_str() {
